@@ -214,6 +214,43 @@ async fn run_history(cx: &Ctx, w: &Value, log: &mut Log) {
                 idx = cold;
                 log.push(json!({"e": "crash", "st": observe(cx, &idx)}));
             }
+            "legacy" => {
+                // Rewrite the durable state as a pre-manifest release left it: every bucket object un-suffixed
+                // (generation 0), metadata without a manifest; then restart from it.  Only from a clean, fully
+                // flushed state (the caller puts a flush in front).
+                let converted = {
+                    let d = durable.borrow();
+                    match &d.meta {
+                        None => None,
+                        Some(mbytes) => {
+                            #[derive(serde::Serialize)]
+                            struct MetaOut<'a> {
+                                metadata: &'a BTreeMetadata,
+                            }
+                            let mut m: MetaWire = cbor2::from_reader(&mbytes[..]).expect("metadata decodes");
+                            let man = std::mem::take(&mut m.metadata.buckets);
+                            if man.is_empty() {
+                                // already a legacy layout (or nothing was ever written): nothing to convert
+                                continue;
+                            }
+                            let mut objects = BTreeMap::new();
+                            for (b, g) in &man {
+                                if let Some(o) = d.objects.get(&(*b, *g)) {
+                                    objects.insert((*b, 0u64), o.clone());
+                                }
+                            }
+                            let mut buf = Vec::new();
+                            cbor2::to_writer(&MetaOut { metadata: &m.metadata }, &mut buf).expect("metadata encodes");
+                            Some(Durable { objects, meta: Some(buf) })
+                        }
+                    }
+                };
+                if let Some(nd) = converted {
+                    *durable.borrow_mut() = nd;
+                    idx = load(&durable.borrow(), dup).await.expect("load");
+                    log.push(json!({"e": "legacy", "st": observe(cx, &idx)}));
+                }
+            }
             "flush" => {
                 let at = op["at"].as_u64().unwrap_or(0) as usize;
                 let fault = match op["mode"].as_str().unwrap_or("clean") {
